@@ -141,8 +141,17 @@ def offline(ctx, res):
         path = os.path.join(tmpdir, f"r{idx}.blots")
         with open(path, "w") as f:
             f.write(src)
-        rr = common.run_cli([path], timeout=120)
-        desc = {"entry": entry, "wrapper": wrapper, "k": k, "bound": L, "function_name_length": name_len, "source": src if len(src) < 1500 else src[:1500] + "...", "exit": rr["rc"],
+        # every way a program reaches the evaluator: file argument, inline source argument, source piped into `-e`
+        mode = ["file", "evaluate-stdin", "inline"][idx % 3]
+        if mode == "inline" and (len(src) > 60000 or src.startswith("-")):
+            mode = "file"
+        if mode == "file":
+            rr = common.run_cli([path], timeout=120)
+        elif mode == "inline":
+            rr = common.run_cli([src], timeout=120)
+        else:
+            rr = common.run_cli(["-e"], stdin_data=src.encode(), timeout=120)
+        desc = {"mode": mode, "entry": entry, "wrapper": wrapper, "k": k, "bound": L, "function_name_length": name_len, "source": src if len(src) < 1500 else src[:1500] + "...", "exit": rr["rc"],
                 "stdout": rr["out"][-300:].decode("utf-8", "replace"), "stderr": rr["err"][-300:].decode("utf-8", "replace")}
         text = (rr["out"] + rr["err"]).decode("utf-8", "replace")
         kcls = "k<4" if k < 4 else "k>=4"
